@@ -74,14 +74,19 @@ func TestVerifC15DB(t *testing.T) {
 			opts.Plain, opts.Prioritized = true, nil
 		}
 		kind := kinds[(h/3+h)%len(kinds)]
+		if h < 3 {
+			// regression (46fe897, eb6fe18): files with several chunks in one stream, background fetch on the db store
+			ents = []verifc02.Ent{{Name: "a", Type: tar.TypeReg, Mode: 0o644, Size: 300, Salt: 1}, {Name: "e", Type: tar.TypeReg, Mode: 0o644, Salt: 2},
+				{Name: "b", Type: tar.TypeReg, Mode: 0o644, Size: 700, Kind: 1, Salt: 3}}
+			opts = verifc02.BuildOpts{ChunkSize: 64, MinChunkSize: 100000, Plain: h == 2}
+			if h == 0 {
+				opts.Prioritized = []string{"a", "e"}
+			}
+			kind = "normal"
+		}
 		s, err := verifNewDBStack(rnd, ents, opts, true, 1, 0)
 		if err != nil {
 			out.Fail("db-stack-setup-failed", fmt.Sprintf("history %d: %v [%s]", h, err, opts))
-			continue
-		}
-		if verifc02.TaintedDB(s.files) {
-			out.Count("skipped-tainted-layout-db")
-			s.close()
 			continue
 		}
 		size := int64(len(s.blob))
